@@ -4,6 +4,8 @@ import (
 	"bytes"
 	"errors"
 	"fmt"
+	"github.com/hattya/go.sh/interp"
+	"github.com/hattya/go.sh/parser"
 	"io"
 	"strings"
 
@@ -26,6 +28,20 @@ type prCase struct {
 	Seed   uint64       `json:"seed"`
 	Cfgs   []int        `json:"cfgs,omitempty"` // nil = all 256
 	Kind   string       `json:"kind"`
+	// Aliases: the source is parsed with this alias table (positions are frozen
+	// during substitution, so the tree's line information is unusual)
+	Aliases map[string]string `json:"aliases,omitempty"`
+}
+
+func prParse(cs prCase, name, src string) ([]ast.Command, []*ast.Comment, error) {
+	if len(cs.Aliases) == 0 {
+		return parseAll(name, src)
+	}
+	env := interp.NewExecEnv("sh")
+	for k, v := range cs.Aliases {
+		env.Aliases[k] = v
+	}
+	return parser.ParseCommands(env, name, src)
 }
 
 // cfgOf maps 0..255 to a printer.Config.
@@ -132,10 +148,13 @@ func prCfgs(cs prCase) []int {
 
 func c05Exec(c *core.Ctx, cs prCase) {
 	src := prSource(cs)
-	cmds, _, err := parseAll("c05", src)
+	cmds, _, err := prParse(cs, "c05", src)
 	if err != nil || len(cmds) == 0 {
 		c.Skip("source not accepted (C02's business)")
 		return
+	}
+	if len(cs.Aliases) != 0 {
+		src += fmt.Sprintf(" with aliases %v", cs.Aliases)
 	}
 	if cs.Prog != nil && skel.Cmds(cmds, skel.Strict) != gen.Expect(cs.Prog) {
 		c.Skip("tree differs from the generator's expectation (C02's business)")
@@ -224,7 +243,10 @@ func c18Abuse(cfg *printer.Config) {
 
 func c18Exec(c *core.Ctx, cs prCase) {
 	src := prSource(cs)
-	cmds, _, err := parseAll("c18", src)
+	cmds, _, err := prParse(cs, "c18", src)
+	if len(cs.Aliases) != 0 {
+		src += fmt.Sprintf(" with aliases %v", cs.Aliases)
+	}
 	if err != nil || len(cmds) == 0 {
 		c.Skip("source not accepted (C02's business)")
 		return
@@ -461,6 +483,27 @@ func prGen(kind string) func(c *core.Ctx) {
 			if kind == "c18" && i%4 == 0 {
 				cs.Kind = "writer-all-k"
 			}
+			if kind == "c05" {
+				core.Do(c, cs, c05Exec)
+			} else {
+				core.Do(c, cs, c18Exec)
+			}
+		}
+		// programs that come out of alias substitution: all their tokens carry the
+		// position of the alias word, so the tree looks like a one-liner
+		for _, a := range []struct {
+			src string
+			al  map[string]string
+		}{
+			{"m\n", map[string]string{"m": "if a\nthen b\nfi"}}, {"m\n", map[string]string{"m": "if a\nthen b\nc\nelse d\ne\nfi"}},
+			{"m\n", map[string]string{"m": "while a\ndo b\nc\ndone"}}, {"m\n", map[string]string{"m": "for i in x\ndo b\nc\ndone"}},
+			{"m\n", map[string]string{"m": "{ a\nb\n}"}}, {"m\n", map[string]string{"m": "case x in\na) b\nc;;\nesac"}},
+			{"m\n", map[string]string{"m": "(a\nb)"}}, {"m x\n", map[string]string{"m": "until a\nb\ndo c; done; echo"}},
+			{"m\n", map[string]string{"m": "echo $(if a\nthen b\nfi)"}}, {"m\n", map[string]string{"m": "( if a\nthen b\nfi )"}}, {"m\n", map[string]string{"m": "{ while a\ndo b\ndone; }"}},
+			{"m\n", map[string]string{"m": "f() { a\nb\n}"}}, {"m\n", map[string]string{"m": "if (a\nb) then c; fi"}},
+			{"m\n", map[string]string{"m": "if a; then b; fi"}}, {"m; n\n", map[string]string{"m": "a |\nb", "n": "c &&\nd"}},
+		} {
+			cs := prCase{Src: a.src, Aliases: a.al, Kind: "alias-made"}
 			if kind == "c05" {
 				core.Do(c, cs, c05Exec)
 			} else {
